@@ -28,7 +28,7 @@ def ObsListed (s : State) : Prop :=
 /-! ## 2. `OpOK` without the two clauses that fail inside the loop (`dom`, `input`) -/
 
 structure OpCore (env : Env) (s : State) (op : Nat) (pr : PerKeyRec) : Prop where
-  cut : pr.cut = none
+  cut : pr.cut = none ∨ pr.cut = some .eq
   own : ∀ c x, c < s.nodes.size → x ∈ kidsX s.experts (s.nodeD c).kind → Priv env pr x → c = pr.result ∨ Priv env pr c
   noObs : ∀ x, Priv env pr x → (s.nodeD x).observers = []
   privTop : ∀ (k x : Nat), s.top[k]? = some x → ¬ Priv env pr x
@@ -138,9 +138,34 @@ structure BF (D : Nat → Prop) (a b : State) : Prop where
   xrec : ∀ (e : Nat) (er : ExpertRec), a.experts[e]? = some er → ∃ er', b.experts[e]? = some er' ∧
     er'.node = er.node ∧ er'.pk = er.pk ∧ (¬ D e → er'.children = er.children) ∧
     (∃ ext, er'.children = er.children ++ ext)
+  /-- old expert nodes whose virtual stamp is `-1` keep it (no expert node runs) -/
+  stamp : ∀ m e, m < a.nodes.size → (a.nodeD m).kind = .expert e → ((V a).nodeD m).recomputedAt = -1 →
+    ((V b).nodeD m).recomputedAt = -1
+
+/-- an old node whose virtual stamp is `-1` keeps it: the actual stamp is kept, a raised flag stays up -/
+theorem LF.stamp {D : Nat → Prop} {a b : State} (h : LF D a b) {m : Nat} (hm : m < a.nodes.size)
+    (hs : ((V a).nodeD m).recomputedAt = -1) : ((V b).nodeD m).recomputedAt = -1 := by
+  have := h.node m hm
+  simp only [nodeKey, Prod.mk.injEq] at this
+  rw [V_stamp_iff] at hs ⊢
+  rw [this.1, this.2.2.2.2.2.1]
+  rcases hs with hs | hs
+  · refine Or.inl ?_
+    cases hk : (a.nodeD m).kind with
+    | expert e =>
+      rw [hk] at hs
+      simp only [forced] at hs ⊢
+      cases he : a.experts[e]? with
+      | none => rw [xRec_none he] at hs; cases hs
+      | some er =>
+        obtain ⟨er', he', -, -, -, -, -, -, a7, -⟩ := h.xrec e er he
+        rw [xRec_some he] at hs
+        rw [xRec_some he']; exact a7 hs
+    | _ => rw [hk] at hs; cases hs
+  · exact Or.inr hs
 
 theorem LF.bf {D : Nat → Prop} {a b : State} (h : LF D a b) : BF D a b := by
-  refine ⟨h.grow, fun m hm => ?_, ?_, fun e er he => ?_⟩
+  refine ⟨h.grow, fun m hm => ?_, ?_, fun e er he => ?_, fun m _ hm _ hs => ?_⟩
   · have := h.node m hm
     simp only [nodeKey, Prod.mk.injEq] at this
     exact this.1
@@ -149,13 +174,16 @@ theorem LF.bf {D : Nat → Prop} {a b : State} (h : LF D a b) : BF D a b := by
     exact this.2.2.2.2.2.2.2.2.2.2.2.2.2.2.1
   · obtain ⟨er1, he1, -, a2, a3, -, -, -, -, a8, a9, -⟩ := h.xrec e er he
     exact ⟨er1, he1, a2, a3, a8, a9⟩
+  · exact h.stamp hm hs
 
 theorem BF.refl (D : Nat → Prop) (a : State) : BF D a a :=
-  ⟨Nat.le_refl _, fun _ _ => rfl, rfl, fun _ er h => ⟨er, h, rfl, rfl, fun _ => rfl, [], (List.append_nil _).symm⟩⟩
+  ⟨Nat.le_refl _, fun _ _ => rfl, rfl, fun _ er h => ⟨er, h, rfl, rfl, fun _ => rfl, [], (List.append_nil _).symm⟩,
+    fun _ _ _ _ h => h⟩
 
 theorem BF.trans {D : Nat → Prop} {a b c : State} (h1 : BF D a b) (h2 : BF D b c) : BF D a c := by
   refine ⟨Nat.le_trans h1.grow h2.grow,
-    fun m hm => (h2.kind m (Nat.lt_of_lt_of_le hm h1.grow)).trans (h1.kind m hm), h2.top.trans h1.top, ?_⟩
+    fun m hm => (h2.kind m (Nat.lt_of_lt_of_le hm h1.grow)).trans (h1.kind m hm), h2.top.trans h1.top, ?_,
+    fun m e hm hk hs => h2.stamp m e (Nat.lt_of_lt_of_le hm h1.grow) ((h1.kind m hm).trans hk) (h1.stamp m e hm hk hs)⟩
   intro e er he
   obtain ⟨er1, he1, a2, a3, a8, x1, a9⟩ := h1.xrec e er he
   obtain ⟨er2, he2, b2, b3, b8, x2, b9⟩ := h2.xrec e er1 he1
@@ -196,10 +224,10 @@ structure LI (env : Env) (s : State) (n op : Nat) (pr : PerKeyRec) (eres : Nat) 
   /-- what the new edges of the result reference: new nodes, named top-level nodes -/
   resKids : ∀ er er', s.experts[eres]? = some er → σ.experts[eres]? = some er' → ∀ ed : ExpertEdge, ed ∈ er'.children →
     ed ∈ er.children ∨ s.nodes.size ≤ ed.child ∨ ∃ k : Nat, s.top[k]? = some ed.child
-  /-- the result is necessary (hence so are the per-key nodes: `EntryOK.input`) -/
+  /-- the result is necessary (hence so are the per-key nodes that are used by their instances: `EntryOK.input`) -/
   resNec : σ.isNecessary pr.result = true
-  /-- the per-key nodes of the processed `.unequal` keys are forced stale -/
-  forcedU : ∀ key p d, key ∈ uk → (key, (p, d)) ∈ pr.prevNodes → forced σ.experts (σ.nodeD p).kind = true
+  /-- the per-key nodes of the processed `.unequal` keys are forced stale or have never been computed: the virtual stamp is `-1` -/
+  forcedU : ∀ key p d, key ∈ uk → (key, (p, d)) ∈ pr.prevNodes → ((V σ).nodeD p).recomputedAt = -1
   /-- the result: untouched so far (no `.right` entry yet), or forced stale -/
   resAlt : ((∀ pr', σ.perkeys[op]? = some pr' → pr'.prevNodes = pr.prevNodes) ∧
       (∀ er er', s.experts[eres]? = some er → σ.experts[eres]? = some er' →
@@ -242,9 +270,9 @@ structure LE (env : Env) (s : State) (n op : Nat) (pr : PerKeyRec) (eres : Nat) 
   resKids : ∀ er er', s.experts[eres]? = some er → s2.experts[eres]? = some er' → ∀ ed : ExpertEdge, ed ∈ er'.children →
     ed ∈ er.children ∨ s.nodes.size ≤ ed.child ∨ ∃ k : Nat, s.top[k]? = some ed.child
   resNec : s2.isNecessary pr.result = true
-  /-- the OLD per-key nodes whose constant changed are forced stale -/
+  /-- the OLD per-key nodes whose constant changed are forced stale or have never been computed: the virtual stamp is `-1` -/
   forcedU : ∀ key p d, (key, (p, d)) ∈ pr.prevNodes → pr.prevMap.lookup key ≠ m.lookup key →
-    forced s2.experts (s2.nodeD p).kind = true
+    ((V s2).nodeD p).recomputedAt = -1
   /-- the result: untouched (no key was added), or forced stale -/
   resAlt : ((∀ pr2, s2.perkeys[op]? = some pr2 → pr2.prevNodes = pr.prevNodes) ∧
       (∀ er er', s.experts[eres]? = some er → s2.experts[eres]? = some er' →
